@@ -78,6 +78,7 @@ CHECKS = {
         "assumptions": EXPLORATION_ASSUMPTIONS + ["background dispatch is pinned with permanently registered sentinel handlers as the property's quantifier describes; an in-handler script that touches the other handler set first waits for that set's sentinel",
                                                   "quiescence of an event = no goroutine with a frame in hSet.dispatch / hNode.Handle"],
         "legs": [
+            {"test": "TestC04_Population", "quick": {"checks": 400, "timeout": "15m"}, "thorough": {"checks": 4000, "shards": 2, "timeout": "60m"}},
             {"test": "TestC04", "quick": {"checks": 1000, "timeout": "15m"},
              "thorough": {"checks": 4000, "shards": 4, "timeout": "60m"}},
         ],
